@@ -429,8 +429,13 @@ let model_history (hist : ostr) =
       match String.split_on_char '/' op with
       | [ph; mh; eh; ah; _pred] ->
         let parent = dec_hex_str ph in
+        if String.length parent > 0 && parent.[0] = '@' then
+          (* Extend on a detection result (a copy): nothing is registered, the tree stays as it is *)
+          states := (!tree, Hashtbl.copy tbl, !ext_ids) :: !states
+        else
         let names id = let nd = Hashtbl.find tbl (int_of_nat id) in List.map bytes_of_string (nd.x_aliases @ [nd.x_mime]) in
         let pid = if parent = "" then 0 else (match lookup names (bytes_of_string parent) !tree with Some i -> int_of_nat i | None -> -1) in
+        if pid < 0 then states := (!tree, Hashtbl.copy tbl, !ext_ids) :: !states else   (* unknown parent: the harness reports it *)
         let id = !next in
         incr next;
         let al = let a = dec_hex_str ah in if a = "" then [] else String.split_on_char ',' a in
@@ -475,7 +480,7 @@ let ch_extp hist hex lim vec chain before =
   let acc id = (try Hashtbl.find verdict (int_of_nat id) = '1' with Not_found -> false) in
   let path = List.rev (walk acc tree) in
   let m = String.concat ";" (List.map (fun id -> let nd = Hashtbl.find tbl (int_of_nat id) in nd.x_mime ^ "|" ^ nd.x_ext) path) in
-  if m <> chain then propfail "C14" (Printf.sprintf "after the Extend calls Detect is not the first-match walk over the enlarged tree: expected %s got %s input=%s limit=%s history=%s" m chain hex lim hist);
+  if m <> chain then propfail (if !prop_mode = "C03" then "C03" else "C14") (Printf.sprintf "after the Extend calls Detect is not the first-match walk over the enlarged tree: expected %s got %s input=%s limit=%s history=%s" m chain hex lim hist);
   let any_ext = List.exists (fun id -> (try Hashtbl.find verdict id = '1' with Not_found -> false)) ext_ids in
   if (not any_ext) && chain <> before then
     propfail "C14" (Printf.sprintf "input rejected by every extension detector is classified differently after the Extend calls: before=%s after=%s input=%s limit=%s history=%s" before chain hex lim hist)
